@@ -23,8 +23,8 @@ pub struct Observer<Endpoint: Display> {
 #[cfg(coap_lite_verif)]
 impl<Endpoint: Display> Observer<Endpoint> {
     /// Verification hook: the count of unacknowledged confirmable updates.
-    pub fn verif_unacknowledged(&self) -> u8 {
-        self.unacknowledged_messages
+    pub fn verif_unacknowledged(&self) -> u16 {
+        self.unacknowledged_messages.into()
     }
 
     /// Verification hook: the message id awaiting acknowledgement, if any.
